@@ -27,6 +27,9 @@ EXPECTED = {
     ('boltons/dictutils.py', 'ManyToMany.update'): 'the branch for an argument that is itself a ManyToMany is outside the contract variant',
     ('boltons/dictutils.py', 'OrderedMultiDict.update'): '`E is self`: the argument is assumed not to be the object itself',
     ('boltons/dictutils.py', 'OrderedMultiDict.update_extend'): '`E is self`: the argument is assumed not to be the object itself',
+    ('boltons/iterutils.py', 'bucketize'): 'key given as a str or a list (and the TypeError branches): the contract takes a callable key',
+    ('boltons/iterutils.py', 'is_iterable'): 'non-iterable argument: the contracts take an iterable src',
+    ('boltons/iterutils.py', 'unique_iter'): 'key given as an attribute name: the contract takes key None or a callable',
     ('boltons/ioutils.py', 'MultiFileReader.read'): 'the unsized read() is outside the contract (amt >= 1 required)',
     ('boltons/ioutils.py', 'SpooledBytesIO.write'): 'TypeError branch for a non-bytes argument: the contract takes bytes',
     ('boltons/setutils.py', 'IndexedSet._get_real_index'): 'negative index normalisation: the contract takes index >= 0',
